@@ -12,17 +12,36 @@ impl<'a> PrettyPrinter<'a> {
         ctx: Context,
         parenthesized: Parenthesized<'a>,
     ) -> ArenaDoc<'a> {
+        self.convert_parenthesized_inner(ctx, parenthesized, true)
+    }
+
+    /// Directly after a `#` in markup or math, a literal keeps its parentheses:
+    /// the bare token would fuse with text that follows it, as in `#(1)pt`.
+    pub(super) fn convert_parenthesized_after_hash(
+        &'a self,
+        ctx: Context,
+        parenthesized: Parenthesized<'a>,
+    ) -> ArenaDoc<'a> {
+        self.convert_parenthesized_inner(ctx, parenthesized, false)
+    }
+
+    fn convert_parenthesized_inner(
+        &'a self,
+        ctx: Context,
+        parenthesized: Parenthesized<'a>,
+        can_omit_literal: bool,
+    ) -> ArenaDoc<'a> {
         let ctx = ctx.with_mode(Mode::CodeCont);
 
         if let Pattern::Parenthesized(paren) = parenthesized.pattern() {
             if !has_comment_children(parenthesized.to_untyped()) {
                 // Remove a layer of paren if no comment inside.
-                return self.convert_parenthesized(ctx, paren);
+                return self.convert_parenthesized_inner(ctx, paren, can_omit_literal);
             }
         }
 
         // Treat is as a list with a single item.
-        self.convert_parenthesized_impl(ctx, parenthesized)
+        self.convert_parenthesized_impl(ctx, parenthesized, can_omit_literal)
     }
 
     /// Convert an expression with optional parentheses.
